@@ -1,11 +1,9 @@
 package main
 
 import (
-	"context"
 	"fmt"
 	"go/types"
-	"os"
-	"path/filepath"
+	"sort"
 	"strconv"
 	"strings"
 )
@@ -42,6 +40,12 @@ func (vc *FuncVC) inputProbes() []probe {
 					ps = append(ps, probe{path, x.T, x.S, "str", 0})
 					ps = append(ps, probe{path + "#id", app("gs_id", x.T), SI32, "uint", 32})
 					ps = append(ps, probe{path + "#len", app("gs_len", x.T), SI64, "int", 64})
+					for k, pc := range e.parseCalls {
+						parts := strings.Split(pc, "|")
+						ps = append(ps, probe{fmt.Sprintf("%s#pok%d", path, k), app(parts[0]+".ok", x.T, parts[1], parts[2]), SBool, "bool", 0})
+						ps = append(ps, probe{fmt.Sprintf("%s#pval%d", path, k), app(parts[0]+".val", x.T, parts[1], parts[2]), SI64, "int", 64})
+						ps = append(ps, probe{fmt.Sprintf("%s#pbase%d", path, k), parts[1], SI64, "int", 64})
+					}
 				case bitsOf(t) > 0:
 					k := "uint"
 					if isSigned(t) {
@@ -92,117 +96,65 @@ func (vc *FuncVC) inputProbes() []probe {
 	return ps
 }
 
-// getModel re-runs a satisfiable query with model production and returns the
-// values of the probes, rendered as Go-ish literals.
-func getModel(dir string, vc *FuncVC, o *Obligation, solverName string, timeoutS int) (map[string]string, []string, string) {
-	probes := vc.inputProbes()
-	// probing may have appended definitions to the script after o.Upto; they are
-	// pure definitions over existing symbols, so append them after the prefix.
-	sc := vc.Engine.sc
-	var b strings.Builder
-	b.WriteString("(set-option :produce-models true)\n(set-logic ALL)\n")
-	b.WriteString(sc.text(o.Upto))
-	if o.Cover {
-		b.WriteString("(assert " + o.Goal + ")\n")
-	} else {
-		b.WriteString("(assert (not " + o.Goal + "))\n")
+// renderModel prints the reachable part of a model compactly.
+func renderModel(m map[string]rawVal) []string {
+	var keys []string
+	for k := range m {
+		keys = append(keys, k)
 	}
-	// later definitions needed by the probes (only define-fun / declare lines)
-	for _, l := range sc.lines[o.Upto:] {
-		if strings.HasPrefix(l, "(define-fun ld!") || strings.HasPrefix(l, "(define-fun ix!") || strings.HasPrefix(l, "(declare-const H0_") {
-			b.WriteString(l + "\n")
-		}
-	}
-	b.WriteString("(check-sat)\n")
-	for _, p := range probes {
-		b.WriteString("(get-value (" + p.Term + "))\n")
-	}
-	file := filepath.Join(dir, sanitize(o.Name)+".model.smt2")
-	_ = os.WriteFile(file, []byte(b.String()), 0o644)
-	var sp solverSpec
-	for _, s := range solvers {
-		if s.name == solverName {
-			sp = s
-		}
-	}
-	if sp.name == "" {
-		sp = solvers[0]
-	}
-	st, out, _ := runSolver(context.Background(), sp, file, timeoutS)
-	vals := map[string]string{}
-	var order []string
-	if st != "sat" {
-		return vals, order, out
-	}
-	lines := strings.Split(out, "\n")
-	// each get-value answer is one s-expression, possibly on several lines; join and split by balanced parens
-	rest := strings.Join(lines[1:], " ")
-	answers := splitSexprs(rest)
-	lits := map[uint64]string{}
-	for lit, _ := range vc.Engine.lits {
-		_ = lit
-	}
-	for i, lit := range vc.Engine.litOrder {
-		if i == 0 {
-			lits[1] = lit
-		} else {
-			lits[uint64(i+1)] = lit
-		}
-	}
-	raw := map[string]string{}
-	for i, p := range probes {
-		if i >= len(answers) {
-			break
-		}
-		raw[p.Path] = valueOf(answers[i])
-	}
-	for _, p := range probes {
-		v, ok := raw[p.Path]
-		if !ok || strings.Contains(p.Path, "#id") {
+	sort.Strings(keys)
+	var out []string
+	for _, k := range keys {
+		if strings.Contains(k, "#id") || strings.HasSuffix(k, "#arr") {
 			continue
 		}
-		switch p.Kind {
-		case "str":
-			id, ok := parseBV(raw[p.Path+"#id"])
-			if lit, isLit := lits[id]; ok && isLit {
-				vals[p.Path] = strconv.Quote(lit)
-			} else {
-				n, _ := parseBV(raw[p.Path+"#len"])
-				vals[p.Path] = fmt.Sprintf("<non-literal string #%d len=%d>", id, int64(n))
+		skip := false
+		for i := 0; i < len(k); i++ {
+			if k[i] == '.' || k[i] == '[' {
+				pre := k[:i]
+				if v, ok := m[pre]; ok && v.OK && v.U == 0 && !v.IsLit {
+					if _, isStr := m[pre+"#len"]; !isStr {
+						skip = true // behind a nil pointer
+					}
+				}
+				if a, ok := m[pre+"#arr"]; ok && a.OK && a.U == 0 {
+					skip = true
+				}
+				if k[i] == '[' {
+					var idx int64
+					fmt.Sscanf(k[i:], "[%d]", &idx)
+					if n, ok := m[pre+"#len"]; ok && idx >= int64(n.U) {
+						skip = true
+					}
+				}
 			}
-		case "int":
-			u, ok := parseBV(v)
-			if !ok {
-				vals[p.Path] = v
-				break
-			}
-			if strings.HasSuffix(p.Path, "#len") && raw[strings.TrimSuffix(p.Path, "#len")] != "" {
-				continue
-			}
-			vals[p.Path] = fmt.Sprintf("%d", signExt(u, p.Bits))
-		case "uint", "ref":
-			u, ok := parseBV(v)
-			if !ok {
-				vals[p.Path] = v
-				break
-			}
-			if p.Kind == "ref" {
-				if u == 0 {
-					vals[p.Path] = "nil"
-				} else {
-					vals[p.Path] = fmt.Sprintf("&obj%d", u)
+		}
+		if skip {
+			continue
+		}
+		v := m[k]
+		switch {
+		case v.IsLit:
+			out = append(out, fmt.Sprintf("%s = %q", k, v.Lit))
+		case strings.HasSuffix(k, "#len"):
+			if _, isStr := m[strings.TrimSuffix(k, "#len")]; isStr {
+				if !m[strings.TrimSuffix(k, "#len")].IsLit {
+					out = append(out, fmt.Sprintf("%s = %d", k, int64(v.U)))
 				}
 			} else {
-				vals[p.Path] = fmt.Sprintf("%d (0x%x)", u, u)
+				out = append(out, fmt.Sprintf("%s = %d", k, int64(v.U)))
 			}
-		case "bool":
-			vals[p.Path] = v
-		}
-		if _, ok := vals[p.Path]; ok {
-			order = append(order, p.Path)
+		case v.OK:
+			out = append(out, fmt.Sprintf("%s = %d (0x%x)", k, int64(v.U), v.U))
+		default:
+			if _, isStr := m[k+"#len"]; isStr {
+				out = append(out, fmt.Sprintf("%s = <non-literal string>", k))
+			} else {
+				out = append(out, fmt.Sprintf("%s = %v", k, v.Bool))
+			}
 		}
 	}
-	return vals, order, out
+	return out
 }
 
 func signExt(u uint64, bits int) int64 {
